@@ -26,6 +26,7 @@ def call(name, *args):
 def run(chk, tier):
     prog, info = common.program("all")
     common.note_extraction(chk, info, prog)
+    common.vacuity(chk, ['R-TABLE'])
     chk.explanation = ("Framing is decided from value-numbered summaries: MessageHeader's wire size (28 = size_of, R-LAYOUT) fixes the frame body at 2432 - 28 bytes; "
                        "decode_message_contents either hands type 31 to the stream decoder or reads exactly one frame body *before* any dispatch and gives the "
                        "status/VCP decoders the frame buffer, never the stream, with every other type yielding the opaque placeholder; decode_messages leaves its "
